@@ -364,9 +364,12 @@ class FxGrammar(Case):
         allx = list(level)
         for _ in range(depth):
             nxt = []
-            for (ta, va) in level[:12]:
-                nxt.append(("-%s" % ta if not ta.startswith("-") else "-(%s)" % ta, -va))
-                nxt.append(("( %s )" % ta, va))
+            for (ta0, va) in level[:12]:
+                atomic = " " not in ta0 and not ta0.startswith("-")
+                ta = ta0 if atomic else "( %s )" % ta0  # a compound operand is parenthesised; precedence and
+                # associativity are exercised by the explicit three-operand patterns below
+                nxt.append(("-%s" % ta, -va))
+                nxt.append(("( %s )" % ta0, va))
                 for (tb, vb) in atoms[:5]:
                     nxt.append(("%s + %s" % (ta, tb), va + vb))
                     nxt.append(("%s - %s" % (ta, tb), va - vb))
@@ -376,8 +379,10 @@ class FxGrammar(Case):
                     nxt.append(("%s - %s * %s" % (tb, ta, tb), vb - va * vb))
                     nxt.append(("(%s - %s) * %s" % (tb, ta, tb), (vb - va) * vb))
                     nxt.append(("%s - %s - %s" % (ta, tb, tb), va - vb - vb))
+                    nxt.append(("%s + %s * %s - %s" % (tb, tb, ta, tb), vb + vb * va - vb))
                     if vb != 0:
                         nxt.append(("%s / %s / %s" % (ta, tb, tb), va / vb / vb))
+                        nxt.append(("%s - %s / %s" % (tb, ta, tb), vb - va / vb))
             level = nxt
             allx.extend(nxt)
         return allx
